@@ -607,6 +607,7 @@ def _check_case(case, st):
             "shape": ("selection-order", "definition-order", "rename-fragments"),
             "argument-order": ("argument-order", "selection-order"),
             "directive-location": ("definition-order",),
+            "merged-parents": ("no-closure",),
         }[case["family"]]
         for j, (name, tag, label, c) in enumerate(X.FAMILIES[case["family"]]()):
             if case["from"] <= j < case["to"]:
